@@ -163,7 +163,13 @@ impl<'a> G<'a> {
             }
             8 => {
                 name = "reverse";
-                format!("(reverse {})", lo(l, any))
+                match self.rng.usize(3) {
+                    0 => format!("(reverse {})", lo(l, any)),
+                    // the result must be newly allocated: it is kept in t and the argument is mutated at once (a
+                    // result that aliases its argument shows in the pool probe)
+                    1 => format!("(define t (let ((r (reverse {a}))) (if (pair? {a}) (set-car! {a} 'mut)) r))", a = lo(l, any)),
+                    _ => format!("(define t (let ((r (reverse {a}))) (if (pair? r) (set-cdr! r 'tail)) r))", a = lo(l, any)),
+                }
             }
             9 => {
                 name = "list-tail";
